@@ -218,8 +218,38 @@ def check_enum(ctx, k, known_id=None):
     ctx.expect(paths, ret=1, abort=1)
 
 
+def check_bundled(ctx, k, N, stride, two=None):
+    p = ctx.sym("p", 64)
+    ctx.assume(z3.UGE(p, BV(0x100000000, 64)), z3.ULE(p, BV(0x400000000000, 64)))
+    n = ctx.sym("n", 32)
+    if two:
+        M = two
+        j = ctx.sym("j", 32)
+        inb = z3.And(sext(n, 128) >= 0, sext(n, 128) < N, sext(j, 128) >= 0, sext(j, 128) < M)
+        want = (sext(n, 128) * M + sext(j, 128)) * stride
+        paths = ctx.run(k, [p, n, j])
+    else:
+        inb = z3.And(sext(n, 128) >= 0, sext(n, 128) < N)
+        want = sext(n, 128) * stride
+        paths = ctx.run(k, [p, n])
+    for q in paths:
+        if q.status == "ret":
+            ctx.require(q, z3.And(inb, zext(q.ret, 128) == want), "designates exactly element i at the host element size (the bundled backends keep the host layout)")
+        elif q.status == "abort":
+            ctx.require(q, z3.Not(inb), "aborts only when the index is out of range")
+    ctx.only(paths, "ret", "abort")
+    ctx.expect(paths, ret=1, abort=1)
+
+
 def jobs(tier, seed):
     out = []
+    from specs.C13 import NOOP, DYLIB
+    bk = [("short4", 4, 2), ("ushort3", 3, 2), ("c16_4", 4, 2), ("long3", 3, 8), ("char5", 5, 1), ("llong2", 2, 8), ("intp3", 3, 8)]
+    for nm, pre in (("noop", NOOP), ("dylib", DYLIB)):
+        out.append(Job("C17_%s_layout" % nm, pre + '#include "C17_bundled.inc"\n',
+                       [dict(name="%s sbx %s" % (nm, t), fn=check_bundled, kw=dict(k="k_b_" + t, N=N, stride=st)) for t, N, st in bk] +
+                       [dict(name="%s sbx short[2][3]" % nm, fn=check_bundled, kw=dict(k="k_b_short23", N=2, stride=2, two=3))],
+                       flags=["-D_GLIBCXX_EXTERN_TEMPLATE=0"], native=False))
     out.append(Job("C17_B32_enum", C.PRELUDE + "using S = B32;\n" + ENUM_SRC,
                    [dict(name="B32 sbx (enum : long)[4]", fn=check_enum, kw=dict(k="k_sbx_enuml", known_id="C17-enum-abi-stride")),
                     dict(name="B32 sbx (enum : int)[4]", fn=check_enum, kw=dict(k="k_sbx_enumi"))], flags=["-fno-exceptions"], native=False))
